@@ -168,7 +168,12 @@ pub fn prepare_js(outdir: &str) -> i32 {
 
     let mods = format!("{}/mods", outdir);
     std::fs::create_dir_all(&mods).unwrap();
-    let corpus = crate::plan::load_corpus(&crate::coord::corpus_path());
+    let mut corpus = crate::plan::load_corpus(&crate::coord::corpus_path());
+    // plus seeded type graphs: named types sharing recursive members, discriminated unions,
+    // unprintable (Date / bigint / Map / Set) leaves
+    for k in 0..400u64 {
+        corpus.push(crate::gen::synthetic_project(0xC16_0000 + k));
+    }
     let mut index = vec![];
     for p in &corpus {
         let fr = fresh_process(&p.files, &p.entry, &p.settings, &Variant { hash_seed: 7, preregister: vec![], repeat: false, diag_first: false });
